@@ -1,0 +1,18 @@
+//go:build verif
+
+package reconciler
+
+// Contracts checked by /verif/govc (comment-only file; build tag verif).
+
+// ---------------------------------------------------------------------------
+// C12 — a failed reconciliation is retried after ReloadRetry
+
+//@ count ReconcileIng = (*services.Services).ReconcileIngress
+
+//@ func (*IngressReconciler).Reconcile
+//@   props C12
+//@   requires unlocked: r.Services != nil && !held(r.Services.modelMutex)
+//@   ensures once:    calls(ReconcileIng) == 1
+//@   ensures requeue: last(ReconcileIng) != nil ==> result.0.RequeueAfter == r.Config.ReloadRetry
+//@   ensures noerr:   result.1 == nil
+//@ end
